@@ -1,4 +1,5 @@
 pub mod c01;
+pub mod c02;
 pub mod c03;
 pub mod c04;
 pub mod c05;
@@ -23,6 +24,7 @@ use crate::Prop;
 pub fn lookup(id: &str) -> Option<Box<dyn Prop>> {
     Some(match id {
         "C01" => Box::new(c01::C01),
+        "C02" => Box::new(c02::C02),
         "C03" => Box::new(c03::C03),
         "C04" => Box::new(c04::C04),
         "C05" => Box::new(c05::C05),
